@@ -27,6 +27,7 @@ package config
 import (
 	"io/ioutil"
 	"os"
+	"time"
 
 	"github.com/fsnotify/fsnotify"
 	"github.com/vicanso/pike/log"
@@ -40,6 +41,9 @@ type fileClient struct {
 }
 
 const defaultPerm os.FileMode = 0600
+
+// fileChangeDelay the delay of triggering change event after the last write of file
+const fileChangeDelay = 100 * time.Millisecond
 
 // NewFileClient create a new file client
 func NewFileClient(file string) (client *fileClient, err error) {
@@ -82,6 +86,11 @@ func (fc *fileClient) Watch(onChange OnChange) {
 		)
 		return
 	}
+	// 保存文件时(如ioutil.WriteFile)会先清空文件再写入，一次保存触发多次write事件，
+	// 而且首次事件时文件可能为空或只写入了部分数据，如果此时读取配置更新，
+	// 则会以空配置更新(所有server被关闭)，因此等待文件不再变化后才触发更新
+	timer := time.NewTimer(time.Hour)
+	timer.Stop()
 	for {
 		select {
 		case event, ok := <-fc.watcher.Events:
@@ -89,8 +98,16 @@ func (fc *fileClient) Watch(onChange OnChange) {
 				return
 			}
 			if event.Op&fsnotify.Write == fsnotify.Write {
-				onChange()
+				if !timer.Stop() {
+					select {
+					case <-timer.C:
+					default:
+					}
+				}
+				timer.Reset(fileChangeDelay)
 			}
+		case <-timer.C:
+			onChange()
 		case err, ok := <-fc.watcher.Errors:
 			if !ok {
 				return
